@@ -366,7 +366,9 @@ func (m *Variant) Encode() ([]byte, error) {
 
 // encode recursively writes the values to the buffer.
 func (m *Variant) encode(buf *Buffer, val reflect.Value) {
-	if val.Kind() != reflect.Slice || m.Type() == TypeIDByteString {
+	// a ByteString is a []byte value, not an array; an array of ByteStrings
+	// ([][]byte) still has to be walked element by element
+	if val.Kind() != reflect.Slice || (m.Type() == TypeIDByteString && val.Type().Elem().Kind() == reflect.Uint8) {
 		m.encodeValue(buf, val.Interface())
 		return
 	}
